@@ -181,6 +181,9 @@ pub struct ProcSpec {
     /// context with unshare(CLONE_FS) first, so this is per simulated process)
     #[serde(default)]
     pub cwd: Option<String>,
+    /// the nth thread the process tries to create is refused (EAGAIN)
+    #[serde(default)]
+    pub thread_fail: Option<u32>,
 }
 
 #[derive(Clone, Debug, PartialEq, serde::Serialize)]
@@ -263,6 +266,7 @@ pub fn run_process<T: Send + 'static>(
     ctx.chunk = spec.chunk;
     ctx.crash_at = spec.crash_at;
     ctx.capture_reads = spec.capture_reads;
+    ctx.thread_fail = spec.thread_fail;
     // every second simulated process sees a clock that stands still (a function of its
     // entropy seed, so replay files need nothing extra)
     // (three in eight stand still, two run backwards, one is skewed per file, two are real)
